@@ -14,13 +14,14 @@ RULE = ('each call of dorfler_refine_isotropic/_anisotropic on a live mesh is ob
         '1-irregular closure of the marked time bisections, then of the marked space bisections applied to the time '
         'halves where the element was bisected in time; (3) the call returns. Exhaustive part: all rank orders of '
         'the indicators on small meshes x a theta grid. distinct = distinct (mesh state, variant, theta, marked set)')
+RULE += ' ' + 'A further group of shards calls both routines with theta within a few ulps of 1 (1-2^-53 ... 1-1e-13) on random indicator vectors, where theta^2*total falls on either side of the floating-point running sum.'
 ASSUMPTIONS = [
     'marked set read from the depth-0 refine_axis requests (if none are observed although the mesh changed the run is inconclusive)',
     'slack 1e-12 relative on the two threshold comparisons so that floating accumulation order is never the cause of an alarm',
     'total = 0: zero or one marked element accepted',
 ]
 REQUIRED = {t: ['variant:iso', 'variant:aniso', 'eta:perm', 'eta:rand', 'eta:tied', 'eta:zero', 'eta:dominant',
-                'eta:denormal', 'eta:threshold', 'marked:closure-forced', 'marked:space-on-time-halves', 'mesh:glued', 'mesh:open']
+                'eta:denormal', 'eta:threshold', 'marked:closure-forced', 'marked:space-on-time-halves', 'mesh:glued', 'mesh:open', 'theta:within-ulps-of-one']
             for t in ('quick', 'thorough')}
 TIMEOUT = {'quick': 900, 'thorough': 5400}
 
@@ -49,6 +50,8 @@ def plan(tier, seed):
     for k in range(n):
         specs.append({'name': 'seq-%d' % k, 'mode': 'seq', 'rseed': seed * 977 + k,
                       'n_hist': 4 if tier == 'quick' else 16, 'rounds': 12})
+    for k in range(4 if tier == 'quick' else 32):
+        specs.append({'name': 'nearone-%d' % k, 'mode': 'nearone', 'rseed': seed * 983 + k, 'n': 150 if tier == 'quick' else 400})
     return specs
 
 
@@ -290,7 +293,39 @@ def run_seq(spec, acc):
         log.close()
 
 
+def run_near_one(spec, acc):
+    """theta within a few ulps of 1 (the property says all theta in (0,1)): theta^2*total then lies a few ulps below the total, on either
+    side of the floating-point running sum; whatever the rounding decides, the marked set must reach the bulk (everything marked is fine)."""
+    import numpy as np
+    from ..workloads.meshes import LockStep, RefineLog
+    rng = random.Random(spec['rseed'])
+    log = RefineLog()
+    thetas = [1 - 2.0**-53, 1 - 2.0**-52, 1 - 2.0**-51, 1 - 1e-15, 1 - 1e-13]
+    try:
+        for k in range(spec['n']):
+            ms, ops = SMALL[rng.randrange(len(SMALL))]
+            ls = LockStep(ms)
+            for op in ops:
+                ls.apply(tuple(op))
+            for _ in range(rng.randrange(0, 12)):
+                L = ls.leaves()
+                ls.apply(('b', rng.randrange(len(L)), rng.randrange(2)))
+            n = len(ls.leaves())
+            variant = 'aniso' if k % 3 else 'iso'
+            theta = thetas[k % len(thetas)]
+            vals = [rng.random() * 10**rng.uniform(-2, 2) for _ in range(n if variant == 'iso' else 2 * n)]
+            eta = np.array(vals) if variant == 'iso' else np.array(vals).reshape(2, n).T.copy()
+            wit = {'mesh': ms, 'history': list(ls.history), 'variant': variant, 'theta': theta, 'eta_kind': 'rand', 'eta': eta.tolist() if n <= 12 else 'n=%d rseed=%d k=%d' % (n, spec['rseed'], k)}
+            observe_call(acc, ls, log, variant, eta, theta, 'theta-near-one', wit)
+            acc.seen('theta:within-ulps-of-one')
+        acc.sample({'mode': 'near-one', 'calls': spec['n'], 'thetas': thetas}, 'nearone')
+    finally:
+        log.close()
+
+
 def run_shard(spec, acc):
+    if spec['mode'] == 'nearone':
+        return run_near_one(spec, acc)
     if spec['mode'] == 'perm':
         run_perm(spec, acc)
     else:
